@@ -136,9 +136,13 @@ def run(ctx):
             if back != d:
                 ctx.violation('dictionary does not read back identically: %r' % (d,), {'dict': repr(d)}, {'fn': 'save_dictionary', 'what': 'roundtrip'})
         # ---------------- text line lists
-        texts = [[], [''], ['a'], ['a ', ' b\t', '', 'c  '], ['ünï', '日本語 ', '\tindented'], ['x' * 500, '', '']]
+        texts = [[], [''], ['a'], ['a ', ' b\t', '', 'c  '], ['ünï', '日本語 ', '\tindented'], ['x' * 500, '', ''],
+                 # characters that are NOT the line terminator '\n' but that str.splitlines() / universal-newline tricks treat as one:
+                 # a line containing them is still one line of the list that was written
+                 ['page\x0cbreak', 'tab\x0bvertical'], ['rec\x1csep', 'a\x1db', 'c\x1ed'], ['nel\x85x', 'ls\u2028x', 'ps\u2029x'],
+                 ['trailing form feed\x0c', '', 'x']]
         for _ in range(ctx.n(10, 100)):
-            texts.append([''.join(rng.choice('ab \t,;é0') for _ in range(rng.randint(0, 8))) for _ in range(rng.randint(0, 6))])
+            texts.append([''.join(rng.choice('ab \t,;é0\x0c\x0b\x1c\x85\u2028') for _ in range(rng.randint(0, 8))) for _ in range(rng.randint(0, 6))])
         tl = []
         for ls in texts:
             fn = os.path.join(tmp, 't.txt')
